@@ -362,6 +362,117 @@ def replay_history(hist: t.List[t.List[t.Any]], kmax: int, cuts: bool) -> t.Tupl
     return ok, "\n".join(lines)
 
 
+def long_scenarios() -> t.Iterator[t.Tuple[str, t.List[t.List[t.Any]]]]:
+    """Beyond K requests: a few long pipelined conversations (n operations in flight, several bind cycles,
+    every delivery pattern), each step judged by the same step()/quiescent_check()."""
+    for n in (5, 12, 30):
+        for pattern in ("next", "two", "all"):
+            h: t.List[t.List[t.Any]] = []
+            nxt = 1
+
+            def flush(pipe: str, count: int) -> None:
+                for _ in range(count):
+                    h.append(["d", pipe, pattern if pattern != "two" else "two"])
+
+            for cycle in range(2):
+                h.append(["c", "bind_sasl" if cycle else "bind_simple"])
+                bid = nxt
+                nxt += 1
+                h.append(["flush", "c2s"])
+                if cycle:
+                    h.append(["s", "bind_sasl", bid])
+                    h.append(["flush", "s2c"])
+                    h.append(["c", "bind_sasl"])
+                    bid = nxt
+                    nxt += 1
+                    h.append(["flush", "c2s"])
+                h.append(["s", "bind_ok", bid])
+                h.append(["flush", "s2c"])
+                ops = []
+                for k in range(n):
+                    kind = "search" if k % 3 != 2 else "ext"
+                    h.append(["c", kind])
+                    ops.append((nxt, kind))
+                    nxt += 1
+                    if k % 4 == 3:
+                        h.append(["d", "c2s", pattern])
+                h.append(["flush", "c2s"])
+                for i, kind in ops:
+                    if kind == "search":
+                        h.append(["s", "entry", i])
+                        if i % 2:
+                            h.append(["s", "ref", i])
+                order = [i for i, _k in ops]
+                order = order[1::2] + order[0::2][::-1]
+                for j, i in enumerate(order):
+                    h.append(["s", "done" if dict(ops)[i] == "search" else "extresp", i])
+                    if j % 5 == 4:
+                        h.append(["d", "s2c", pattern])
+                h.append(["flush", "s2c"])
+            h.append(["c", "unbind"])
+            h.append(["flush", "c2s"])
+            yield f"pipeline-{n}-{pattern}", h
+
+
+def run_long(ctx: evid.Ctx) -> None:
+    for name, hist in long_scenarios():
+        w = World()
+        done: t.List[t.List[t.Any]] = []
+        ctx.add("long_run_histories")
+        bad = False
+        for raw in hist:
+            if bad:
+                break
+            evs: t.List[Ev] = []
+            if raw[0] == "flush":
+                pipe = raw[1]
+                # deliver until that pipe is empty, one event at a time (the pattern is chosen per event below)
+                guard = 0
+                while (w.c2s if pipe == "c2s" else w.s2c) and guard < 100000:
+                    guard += 1
+                    frs = w.c2s if pipe == "c2s" else w.s2c
+                    how = "two" if ("two" in name and len(frs) > 2) else "all" if ("all" in name and len(frs) > 1) else "next"
+                    ev = ("d", pipe, how)
+                    w2, v = step(w, ev, True)
+                    done.append(list(ev))
+                    ctx.add("transitions")
+                    ctx.add("long_run_steps")
+                    if v is None and not w2.c2s and not w2.s2c:
+                        v = quiescent_check(w2, 1)
+                    if v is not None and v[0] != "__refused__":
+                        ctx.violation(v[0], f"[long run {name}, step {len(done)}] {v[1]}", {"K": 10**6, "cuts": True, "history": list(done)})
+                        bad = True
+                        break
+                    w = w2
+                continue
+            ev = tuple(raw)
+            if ev[0] == "d":
+                frs = w.c2s if ev[1] == "c2s" else w.s2c
+                if not frs:
+                    continue
+                if ev[2] == "two" and len(frs) <= 2:
+                    ev = ("d", ev[1], "next")
+                if ev[2] == "all" and len(frs) <= 1:
+                    ev = ("d", ev[1], "next")
+            w2, v = step(w, ev, True)
+            done.append(list(ev))
+            ctx.add("transitions")
+            ctx.add("long_run_steps")
+            if w2 is None:
+                continue
+            if v is not None and v[0] == "__refused__":
+                ctx.violation(f"long-run-call-refused:{ev[0]}:{ev[1]}", f"[long run {name}, step {len(done)}] {ev} was refused although the conversation allows it (client {w.c.state.name}, server {w.s.state.name})", {"K": 10**6, "cuts": True, "history": list(done)})
+                bad = True
+                break
+            if v is None and not w2.c2s and not w2.s2c:
+                v = quiescent_check(w2, 1)
+            if v is not None:
+                ctx.violation(v[0], f"[long run {name}, step {len(done)}] {v[1]}", {"K": 10**6, "cuts": True, "history": list(done)})
+                bad = True
+                break
+            w = w2
+
+
 def run(ctx: evid.Ctx) -> None:
     kmax = 3 if ctx.tier == "thorough" else 2
     cuts = True
@@ -382,7 +493,8 @@ def run(ctx: evid.Ctx) -> None:
         ctx.sample({"history": s})
     if not st["samples"]:
         ctx.sample({"history": h})
-    ctx.counters["evaluations"] = st["transitions"]
+    run_long(ctx)
+    ctx.counters["evaluations"] = ctx.counters.get("transitions", 0)
     ctx.rule = (
         "joint explicit-state BFS to a fixpoint over (client, server, two pipes, ghost queues); every transition runs the "
         "real objects; distinct_nontrivial counts distinct (actor, event, reaches-quiescence) classes; states are "
